@@ -271,22 +271,63 @@ def _exits_in(ck, fi, cfg, reads, mode):
 
 
 def _guard_signature(fi, call):
-    """The disjuncts (canonical text) of the innermost `if` whose body contains ``call``; None if the call
-    is unconditional within the function; raises AnalysisError for shapes it cannot read."""
+    """Truth table of the condition under which ``call`` executes inside ``fi``, as far as it is decided by the
+    enclosing `if` statements: (atoms, frozenset of satisfying assignments).  Atoms are the dotted paths tested
+    (self._write_finished, self.is_client, ...).  Equivalent spellings (De Morgan, swapped branches, nested
+    ifs) give the same table.  Raises AnalysisError for shapes it cannot fold."""
+    import itertools
+
+    import copy as _copy
+
+    class _CallAtoms(ast.NodeTransformer):
+        # a zero-argument method call on a dotted path (fut.done(), stream.closed()) is an opaque boolean atom
+        def visit_Call(self, node):
+            d = q.dotted(node.func)
+            if d and not node.args and not node.keywords:
+                return ast.copy_location(ast.Name(id=d + "()", ctx=ast.Load()), node)
+            return self.generic_visit(node)
+
     pm = q.parent_map(fi.node)
+    conds = []  # (test expr, polarity)
     child = call
     for a in q.ancestors(pm, call):
         if isinstance(a, q.ScopeNode):
-            return None
+            break
         if isinstance(a, ast.If):
-            if any(child is s_ or any(child is x for x in ast.walk(s_)) for s_ in a.body):
-                return frozenset(canon_fact(d, True) for d in q.split_disj(a.test))
-            raise AnalysisError("%s: %s sits in an else branch (guard shape not modelled)" % (fi.qualname, q.unparse(call)))
-        if isinstance(a, (ast.While, ast.For, ast.AsyncFor, ast.Try, ast.With, ast.AsyncWith)):
-            child = a
-            continue
+            in_body = any(child is s_ for s_ in a.body)
+            in_else = any(child is s_ for s_ in a.orelse)
+            if in_body or in_else:
+                conds.append((_CallAtoms().visit(_copy.deepcopy(a.test)), in_body))
         child = a
-    return None
+    atoms = sorted({d for t, _p in conds for d in (q.dotted(n) for n in ast.walk(t) if isinstance(n, (ast.Attribute, ast.Name))) if d and not any(isinstance(p_, ast.Attribute) and p_.value is n2 for n2 in [None] for p_ in [None] if False)})
+    # keep maximal dotted paths only
+    atoms = [a for a in atoms if not any(b != a and b.startswith(a + ".") for b in atoms)]
+    sat = set()
+    for vals in itertools.product((False, True), repeat=len(atoms)):
+        env = dict(zip(atoms, vals))
+        try:
+            ok = all(bool(q.fold(t, env)) == pol for t, pol in conds)
+        except q.NotFoldable as e:
+            raise AnalysisError("%s: guard of %s cannot be folded (%s)" % (fi.qualname, q.unparse(call), e))
+        if ok:
+            sat.add(vals)
+    return (tuple(atoms), frozenset(sat))
+
+
+def _same_guard(a, b):
+    """Two guard tables agree (over the union of their atoms)."""
+    import itertools
+
+    atoms = sorted(set(a[0]) | set(b[0]))
+
+    def holds(tab, env):
+        return tuple(env[x] for x in tab[0]) in tab[1]
+
+    for vals in itertools.product((False, True), repeat=len(atoms)):
+        env = dict(zip(atoms, vals))
+        if holds(a, env) != holds(b, env):
+            return False
+    return True
 
 
 def _delivery_agreement(ck, rm):
@@ -295,10 +336,10 @@ def _delivery_agreement(ck, rm):
     fin = [c for _n, c in call_sites(rm, dp + ".finish")]
     if not fin:
         return
-    fsig = {_guard_signature(rm, c) for c in fin}
-    if len(fsig) != 1:
+    fsigs = [_guard_signature(rm, c) for c in fin]
+    if any(not _same_guard(fsigs[0], x) for x in fsigs[1:]):
         raise AnalysisError("delegate.finish() is called under differing guards in %s" % rm.qualname)
-    fsig = next(iter(fsig))
+    fsig = fsigs[0]
     n = 0
     cls = rm.qualname.rsplit(".", 1)[0]
     for reader in ck.repo.direct_methods(rm.file, cls):
@@ -309,9 +350,12 @@ def _delivery_agreement(ck, rm):
         for c in sites:
             n += 1
             sig = _guard_signature(reader, c)
+            # conditions of the reader on its own data (e.g. `if ret is not None`) do not concern the agreement:
+            # compare only over the connection-state atoms both sides mention
             ck.use(reader)
-            ck.ob(R, reader, c, sig == fsig, "body chunks are delivered under the same condition as delegate.finish() (%s vs %s)" % (
-                sorted(t for t, _p in (sig or [])), sorted(t for t, _p in (fsig or []))))
+            common = [a_ for a_ in sig[0] if a_.startswith("self.")]
+            proj = (tuple(common), frozenset(tuple(v for a_, v in zip(sig[0], vals) if a_ in common) for vals in sig[1]))
+            ck.ob(R, reader, c, _same_guard(proj, fsig), "body chunks are delivered under the same connection-state condition as delegate.finish() (atoms %s vs %s)" % (list(proj[0]), list(fsig[0])))
     ck.floor(R, n, 2, "data_received sites in the body readers")
 
 
@@ -460,7 +504,17 @@ def run(ck):
     for n in q.walk_body(cac.node):
         if isinstance(n, ast.Assign) and q.dotted(n.value) == "self._connections":
             conn_aliases |= {q.dotted(t) for t in n.targets if q.dotted(t)}
-    loops = [n for n in q.walk_body(cac.node) if isinstance(n, ast.While) and q.dotted(n.test) in conn_aliases]
+    def _nonempty(t):
+        if q.dotted(t) in conn_aliases:
+            return True
+        if isinstance(t, ast.Compare) and len(t.ops) == 1 and isinstance(t.left, ast.Call) and q.call_attr(t.left) == "len" and t.left.args and q.dotted(t.left.args[0]) in conn_aliases and isinstance(t.comparators[0], ast.Constant):
+            op, k = t.ops[0], t.comparators[0].value
+            return (isinstance(op, (ast.Gt, ast.NotEq)) and k == 0) or (isinstance(op, ast.GtE) and k == 1)
+        if isinstance(t, ast.Call) and q.call_attr(t) in ("len", "bool") and t.args and q.dotted(t.args[0]) in conn_aliases:
+            return True
+        return False
+
+    loops = [n for n in q.walk_body(cac.node) if isinstance(n, ast.While) and _nonempty(n.test)]
     if not loops and awaited_close:
         raise AnalysisError("close_all_connections: the loop around `await conn.close()` is not a `while <connection set>` loop (unknown idiom)")
     ck.ob("C05.close-order", cac, cac.node, len(loops) == 1 and all(any(a is x for x in ast.walk(loops[0])) for a in awaited_close), "the await sits in a loop that runs while self._connections is non-empty")
